@@ -1470,6 +1470,8 @@ class Interp:
             self.heap_writes += 1
             self.model.on_heap_write(self, o)
             p.set_content(o, z3.Store(p.content(o), self.key_inject(ty.k, args[0]), True))
+            if hasattr(self.model, "after_set_add"):
+                self.model.after_set_add(self, o, args[0])      # ghost code a contract attaches to set.add
 
         def set_remove(it, o, args, kw):
             kz = self.key_inject(ty.k, args[0])
